@@ -1,17 +1,21 @@
 package main
 
 import (
+	"context"
 	"encoding/hex"
 	"errors"
 	"fmt"
 	"io"
 	"strings"
 	"sync/atomic"
+	"time"
 
 	remoteexecution "github.com/bazelbuild/remote-apis/build/bazel/remote/execution/v2"
 	"github.com/buildbarn/bb-storage/pkg/blobstore"
 	"github.com/buildbarn/bb-storage/pkg/blobstore/buffer"
+	"github.com/buildbarn/bb-storage/pkg/clock"
 	"github.com/buildbarn/bb-storage/pkg/digest"
+	"github.com/buildbarn/bb-storage/pkg/eviction"
 	"google.golang.org/grpc/codes"
 	"google.golang.org/grpc/status"
 
@@ -25,9 +29,19 @@ const (
 	ctorByteSlice          // buffer.NewCASBufferFromByteSlice
 	ctorReaderAt           // blobstore.CASReadBufferFactory.NewBufferFromReaderAt
 	numCtors
+	// The same factory behind blobstore.NewValidationCachingReadBufferFactory
+	// (what pkg/blobstore/configuration builds when a data integrity
+	// validation cache is configured). These are exercised as histories: the
+	// same digest is read several times through one factory (history.go).
+	ctorVCByteSlice = iota - 1 // validationCaching(CAS).NewBufferFromByteSlice
+	ctorVCReaderAt             // validationCaching(CAS).NewBufferFromReaderAt
+	ctorVCReader               // validationCaching(CAS).NewBufferFromReader
 )
 
-var ctorNames = [...]string{"casReaderBuffer", "casChunkReaderBuffer", "casByteSliceBuffer", "casReaderAtBuffer"}
+var ctorNames = [...]string{"casReaderBuffer", "casChunkReaderBuffer", "casByteSliceBuffer", "casReaderAtBuffer",
+	"validationCachingByteSliceBuffer", "validationCachingReaderAtBuffer", "validationCachingReaderBuffer"}
+
+func isVCCtor(ctor int) bool { return ctor >= ctorVCByteSlice }
 
 // Content kinds. The object's complete content C either is the content G the
 // digest was computed from ("match") or differs from it in a known way.
@@ -96,6 +110,22 @@ type scenario struct {
 
 	ctor    int
 	backend bool // BackendProvided (INTERNAL + integrity callback) vs UserProvided (INVALID_ARGUMENT)
+
+	// Histories (validation caching constructors): the factory shared by the
+	// attempts and this attempt's position. attempt > 0: the digest (or
+	// another digest) was read through the same factory before.
+	factory blobstore.ReadBufferFactory
+	attempt int
+	prior   string // what the earlier attempts on this digest were, for descriptions / distinct keys
+}
+
+// sigCtor is the constructor part of violation signatures. Re-reads through a
+// caching factory are a failing-input class of their own.
+func (sc *scenario) sigCtor() string {
+	if sc.attempt > 0 {
+		return ctorNames[sc.ctor] + "(reread)"
+	}
+	return ctorNames[sc.ctor]
 }
 
 func (sc *scenario) matching() bool { return sc.kind == kindMatch }
@@ -131,8 +161,12 @@ func (sc *scenario) String() string {
 	if sc.ioErr != nil {
 		e = fmt.Sprintf("%q@%d", sc.ioErr.Error(), sc.errPos)
 	}
-	return fmt.Sprintf("%s fn=%s size=%d kind=%s(%s) content=%s ioerr=%s chunks=%s termWithData=%v source=%s",
-		ctorNames[sc.ctor], fnName(sc.fn), sc.size, sc.kind, sc.detail, showBytes(sc.content), e, showChunks(sc.chunks), sc.termWithData, src)
+	h := ""
+	if sc.attempt > 0 || sc.prior != "" {
+		h = fmt.Sprintf(" attempt=%d after[%s]", sc.attempt, sc.prior)
+	}
+	return fmt.Sprintf("%s fn=%s size=%d kind=%s(%s) content=%s ioerr=%s chunks=%s termWithData=%v source=%s%s",
+		ctorNames[sc.ctor], fnName(sc.fn), sc.size, sc.kind, sc.detail, showBytes(sc.content), e, showChunks(sc.chunks), sc.termWithData, src, h)
 }
 
 func fnName(fn remoteexecution.DigestFunction_Value) string { return fn.String() }
@@ -269,6 +303,11 @@ type scriptReaderAt struct {
 
 func (r *scriptReaderAt) ReadAt(p []byte, off int64) (int, error) {
 	r.st.onRead()
+	if off < 0 {
+		// As os.File and bytes.Reader do. Unvalidated reader-at buffers pass
+		// the consumer's offset straight through.
+		return 0, errors.New("c09 source: negative offset")
+	}
 	if off >= int64(len(r.avail)) {
 		return 0, r.term
 	}
@@ -313,7 +352,44 @@ func (sc *scenario) build() (buffer.Buffer, *srcState, *verdicts) {
 	case ctorByteSlice:
 		// The slice is handed over; keep the scenario's copy intact.
 		return buffer.NewCASBufferFromByteSlice(sc.d, append([]byte{}, sc.content...), src), st, v
-	default:
+	case ctorReaderAt:
 		return blobstore.CASReadBufferFactory.NewBufferFromReaderAt(sc.d, &scriptReaderAt{st: st, avail: sc.avail(), term: sc.term(), termWithData: sc.termWithData}, int64(sc.size), cb), st, v
 	}
+	f := sc.factory
+	if f == nil {
+		f = newVCFactory(1, digest.KeyWithoutInstance)
+	}
+	switch sc.ctor {
+	case ctorVCByteSlice:
+		return f.NewBufferFromByteSlice(sc.d, append([]byte{}, sc.content...), cb), st, v
+	case ctorVCReaderAt:
+		return f.NewBufferFromReaderAt(sc.d, &scriptReaderAt{st: st, avail: sc.avail(), term: sc.term(), termWithData: sc.termWithData}, int64(sc.size), cb), st, v
+	case ctorVCReader:
+		return f.NewBufferFromReader(sc.d, &scriptReader{st: st, avail: sc.avail(), chunks: sc.chunks, term: sc.term(), termWithData: sc.termWithData}, cb), st, v
+	}
+	panic("c09 harness: unknown constructor")
+}
+
+// fixedClock: the existence cache behind the validation caching factory asks
+// for the time; a constant keeps every entry alive for the whole history and
+// keeps the wall clock out of the run.
+type fixedClock struct{}
+
+func (fixedClock) Now() time.Time { return time.Unix(1700000000, 0) }
+func (fixedClock) NewContextWithTimeout(parent context.Context, timeout time.Duration) (context.Context, context.CancelFunc) {
+	panic("c09 harness: fixedClock.NewContextWithTimeout is not used")
+}
+func (fixedClock) NewTimer(d time.Duration) (clock.Timer, <-chan time.Time) {
+	panic("c09 harness: fixedClock.NewTimer is not used")
+}
+func (fixedClock) NewTicker(d time.Duration) (clock.Ticker, <-chan time.Time) {
+	panic("c09 harness: fixedClock.NewTicker is not used")
+}
+
+// newVCFactory is the read-buffer factory stack of a store with a data
+// integrity validation cache: validation caching on top of the CAS factory.
+func newVCFactory(cacheSize int, kf digest.KeyFormat) blobstore.ReadBufferFactory {
+	return blobstore.NewValidationCachingReadBufferFactory(
+		blobstore.CASReadBufferFactory,
+		digest.NewExistenceCache(fixedClock{}, kf, cacheSize, time.Hour, eviction.NewLRUSet[string]()))
 }
